@@ -65,7 +65,7 @@ def check_case(case, ctx):
         try:
             with base.quiet():
                 compare_maps(case, im, sm, loc, adj, edges)
-                res = compare_matching(case, im, sm)
+                res = compare_matching(case, im, sm, ctx)
         finally:
             sm.db.close()
     finally:
@@ -126,17 +126,22 @@ def compare_maps(case, im, sm, loc, adj, edges):
         raise Violation("all_nodes", f"all_nodes(): inmem {wi}, sqlite {ws}")
 
 
-def compare_matching(case, im, sm):
+def compare_matching(case, im, sm, ctx=None):
     if not case["trace"]:
         return "none"
     path = base.to_path(case["trace"])
-    out = []
+    out, trailing_ne = [], False
     for m in (im, sm):
         matcher = base.mk_matcher(m, case["config"])
         states, idx = base.pkg(matcher.match, path)
         lb = matcher.lattice_best
         out.append((idx, len(states) > 0, float(lb[-1].logprob) if lb else None))
+        trailing_ne |= bool(lb) and lb[-1].obs_ne != 0
     a, b = out
+    if (a[0] == b[0] and a[1] == b[1] and not base.close(a[2], b[2], 1e-9) and trailing_ne and ctx is not None and
+            ctx.known("KF-NE-ORDER", "after an early stop the best path ends in a run of non-emitting states whose content depends on the "
+                                     "order in which neighbours are listed (the two backends list them differently)")):
+        return "excluded:KF-NE-ORDER"
     if a[0] != b[0] or a[1] != b[1] or not base.close(a[2], b[2], 1e-9):
         raise Violation("matching", f"same matcher: inmem gives (idx, matched, logprob)={a}, sqlite {b}")
     return "empty" if not a[1] else ("full" if a[0] == len(path) - 1 else "partial")
